@@ -1103,7 +1103,7 @@ class History(Entry):
             cs.append(big_histories(r, None, [16385, 4097] if ctx.quick() else [16385, 4097, 70001, 32767]))
             for dl in ([DELIMS[1 + ctx.seed % 3]] if ctx.quick() else DELIMS[1:]):
                 cs.append(big_histories(r, dl, [16385, 3]))
-        n = ctx.n(90, 900) if round == 0 else ctx.n(60, 200)
+        n = ctx.n(90, 700) if round == 0 else ctx.n(60, 200)
         for i in range(n):
             cs.append(random_history(r, 8 if ctx.quick() else (40 if i % 8 == 0 else 14)))
         return cs
